@@ -154,3 +154,67 @@ pub fn guard_batch_verify_lengths() {
     };
     core::mem::forget(r);
 }
+
+
+// ---------------------------------------------------------------------------------------------------
+// The Poseidon-based transcript of midnight-circuits (circuits/src/hash/poseidon/poseidon_cpu.rs) has its
+// own `Hashable::read` implementations for proof elements; same contracts as the Blake2b ones above
+// (added after seeded change C03-c: `read` instead of `read_exact` accepts a truncated final point).
+type PState = midnight_circuits::hash::poseidon::PoseidonState<F>;
+
+#[cfg_attr(kani, kani::proof)]
+#[cfg_attr(kani, kani::unwind(50))]
+#[cfg_attr(kani, kani::stub(blst::blst_p1_uncompress, crate::stubs::oracle_p1_uncompress))]
+#[cfg_attr(kani, kani::stub(blst::blst_p1_affine_on_curve, crate::stubs::oracle_p1_on_curve))]
+#[cfg_attr(kani, kani::stub(blst::blst_p1_affine_in_g1, crate::stubs::oracle_p1_in_g1))]
+#[cfg_attr(kani, kani::stub(blst::blst_p1_from_affine, crate::stubs::blst_p1_from_affine_stub))]
+pub fn hashable_poseidon_read_g1_checked() {
+    let buf: [u8; 48] = any();
+    let len: usize = any();
+    assume(len <= 48);
+    let mut rd: &[u8] = &buf[..len];
+    let r = <midnight_curves::G1Projective as Hashable<PState>>::read(&mut rd);
+    match r {
+        Ok(_) => {
+            crate::vcover!(true, "accepted");
+            assert!(len == 48, "a truncated point encoding was accepted");
+            #[cfg(kani)]
+            unsafe {
+                assert!(crate::stubs::P1_UNCOMP_OK && crate::stubs::P1_ON_CURVE && crate::stubs::P1_IN_G1);
+            }
+        }
+        Err(e) => {
+            crate::vcover!(len == 48, "rejected a full-length encoding");
+            core::mem::forget(e);
+        }
+    }
+}
+
+#[cfg_attr(kani, kani::proof)]
+#[cfg_attr(kani, kani::unwind(34))]
+#[cfg_attr(kani, kani::stub(blst::blst_scalar_fr_check, crate::stubs::oracle_scalar_fr_check))]
+#[cfg_attr(kani, kani::stub(blst::blst_fr_from_uint64, crate::stubs::oracle_fr_from_uint64))]
+#[cfg_attr(kani, kani::stub(zeroize::optimization_barrier, crate::stubs::noop_barrier))]
+pub fn hashable_poseidon_read_fq_canonical() {
+    let buf: [u8; 32] = any();
+    let len: usize = any();
+    assume(len <= 32);
+    let mut rd: &[u8] = &buf[..len];
+    let r = <F as Hashable<PState>>::read(&mut rd);
+    match r {
+        Ok(_) => {
+            crate::vcover!(true, "accepted");
+            assert!(len == 32, "a truncated scalar encoding was accepted");
+            #[cfg(kani)]
+            unsafe {
+                assert!(crate::stubs::FR_CHECK_CALLS >= 1 && crate::stubs::FR_CHECK_ANSWER);
+            }
+            #[cfg(not(kani))]
+            assert!(buf[31] < 0x74, "accepted a scalar >= 2^255 > r");
+        }
+        Err(e) => {
+            crate::vcover!(len == 32, "rejected a full-length encoding");
+            core::mem::forget(e);
+        }
+    }
+}
